@@ -423,7 +423,7 @@ class BinaryFileReader:
         return definition
 
     def read_data_count_definition(self):
-        n = self.read_int()
+        n = self.read_uint()  # u32, like every other count
         return components.DataCount(n)
 
     def read_custom_definition(self):
